@@ -83,6 +83,7 @@ def trim_nl(s):
 # name, shell text, model tokens, mode, kind, expectation(item, ifs, opts, names) -> list | None(ERR) ; kind:
 #   'q'  every expansion is quoted: intrinsic predicate = expectation
 #   'm'  quoted value next to an unquoted glob: expectation computed independently (value literal)
+#   'c'  correspondence only (brush == model)
 #   'u'  unquoted: brush == model, plus the weak predicate "every word is a directory entry or a piece of the value"
 TEMPLATES = [
     ("dq_x", '"$x"', ["D(", "Vx", "D)"], "w", "q", lambda it, i, o, n: [it[0]]),
@@ -111,7 +112,7 @@ LIST_TEMPLATES = [
     ("dq_arr_affix", '"${k[@]}"\'*\'', ["D(", "A@k", "D)", "Q*"], "w", "q", lambda it, i, o, n: glue_at("", it, "*")),
     ("at_at", '"$@""$@"', ["D(", "X@", "D)", "D(", "X@", "D)"], "w", "q",
      lambda it, i, o, n: (list(it[:-1]) + [it[-1] + it[0]] + list(it[1:])) if it else []),
-    ("dq_star", '"$*"', ["D(", "X*", "D)"], "w", "star", lambda it, i, o, n: [ifs_first(i).join(it)]),
+    ("dq_star", '"$*"', ["D(", "X*", "D)"], "w", "c", None),   # correspondence only; "$*" belongs to C05
     ("uq_at", '$@', ["X@"], "w", "u", None),
     ("uq_arr", '${k[@]}', ["A@k"], "w", "u", None),
 ]
@@ -212,17 +213,6 @@ def leg_a(ctx, root, jobs, tag):
             elif kind == "u":
                 if isinstance(bv, list) and not substrings_ok(bv, it, DIRNAMES + ["a"]):
                     why = "unquoted expansion produced a word that is neither a piece of the value nor a directory entry: %r" % (bv,)
-            clause = None
-            if kind == "star":
-                want = exp(it, ifs, o, DIRNAMES)
-                if bv != want:
-                    if ifs == "" and len(it) > 1:
-                        clause = "star_joined_with_space_when_ifs_empty"
-                    else:
-                        why = '"$*" did not join the parameters with the first IFS character: got %r, want %r' % (bv, want)
-            if clause and bv == mv:
-                ctx.known_or_violation(clause, '"$*" with empty IFS joins with a space: got %r' % (bv,), dict(case, brush=bv))
-                continue
             if bv != mv and not unmod:
                 if nv < 25:
                     nv += 1
@@ -571,7 +561,7 @@ def replay(ctx, rp):
             print("brush:  %r" % (bv,))
             print("model:  %r" % (mv,))
             print("wanted: %r" % (want,))
-            bad = (bv != mv and not unmod) or (t[4] in ("q", "m", "star") and bv != want)
+            bad = (bv != mv and not unmod) or (t[4] in ("q", "m") and bv != want)
             return 1 if bad else 0
         if case.get("leg") == "B":
             v = case["value"]
